@@ -1,7 +1,7 @@
 (** C04, end to end: the records of one wrapped exec call as a function of the configuration FILE, composed from the area
     models (System/Compose.v: Config.load -> Filter.check_chain -> Expand.log_message -> Output.action_el) and instantiated with
     every constant regenerated from the working tree.  Statements only; the general theorems are in System/Proofs.v. *)
-From Snoopy Require Import Lib.CStr Lib.Skel Config.Model Filter.Model Expand.Model Expand.Tokens Output.Model Output.Proofs DsTruth.Model System.Compose System.Proofs System.Full.
+From Snoopy Require Import Lib.CStr Lib.Skel Config.Model Config.Exec Filter.Model Expand.Model Expand.Tokens Output.Model Output.Proofs DsTruth.Model System.Compose System.Proofs System.Full.
 From Coq Require Import Strings.String.
 From Gen Require Import Gen_Config Gen_Filter Gen_Expand Gen_Output Gen_Errors Gen_Sys Gen_Ds.
 Local Open Scope N_scope.
@@ -12,6 +12,12 @@ Definition SC : sys_consts :=
 
 Lemma sys_gen_ok : chain_consts_ok (sc_flt SC) = true /\ expand_consts_ok (sc_exp SC) = true /\ output_consts_ok (sc_out SC) = true /\ sc_filtering SC = true.
 Proof. repeat split; vm_compute; reflexivity. Qed.
+
+(** the regenerated option tables / data source descriptions are the ones the C08 / C12 theorems hold for *)
+Lemma cfg_gen_ok : config_consts_ok Gen_Config.consts = true.
+Proof. vm_compute. reflexivity. Qed.
+Lemma ds_gen_ok : ds_consts_ok Gen_Ds.gen = true.
+Proof. vm_compute. reflexivity. Qed.
 
 Section EndToEnd.
   Variable fverdict : fimpl -> list byte -> bool.                 (* verdicts of the registered filters in the current process state *)
